@@ -21,8 +21,22 @@ type G struct {
 // progress unless another goroutine (or a timer) acts.
 func (g G) Blocked() bool {
 	s := g.State
+	if strings.HasPrefix(s, "semacquire") {
+		// "semacquire" is also the state of a goroutine that is about to start a GC cycle or stop the world and waits
+		// for the runtime's own semaphores (which the dump itself holds): that is not blocked in our sense. Only a
+		// semaphore wait entered through package sync (WaitGroup, Mutex, Cond of older runtimes) counts.
+		for i, f := range g.Funcs {
+			if i > 6 {
+				break
+			}
+			if strings.HasPrefix(f, "sync.runtime_Semacquire") || strings.HasPrefix(f, "internal/sync.runtime_Semacquire") {
+				return true
+			}
+		}
+		return false
+	}
 	return strings.HasPrefix(s, "chan receive") || strings.HasPrefix(s, "chan send") ||
-		strings.HasPrefix(s, "select") || strings.HasPrefix(s, "semacquire") || strings.HasPrefix(s, "sync.")
+		strings.HasPrefix(s, "select") || strings.HasPrefix(s, "sync.")
 }
 
 // Has reports whether any frame's function name contains sub.
